@@ -1,31 +1,61 @@
 // C01 — agreement and voting discipline.
+//
+//	model: TLC checks "discipline L0-L4 => Agreement" for all interleavings (4 processes, 1 Byzantine) and the
+//	       Go guard functions are cross-validated against TLC's labelled state graph;
+//	local: one REAL ConsensusState against an arbitrary environment (explicit-state BFS); every vote and commit
+//	       it emits must be an enabled action of the model (same guard functions);
+//	net:   three real nodes + one Byzantine puppet, deviation-bounded exploration of delivery schedules.
 package main
 
 import (
+	"flag"
+
 	"verif/vk"
 
 	"github.com/lianxiangcloud/linkchain/libs/log"
 )
 
+var part = flag.String("part", "all", "model|local|net|all")
+
 func main() {
 	log.Root().SetHandler(log.DiscardHandler())
 	r := vk.Start("C01", "model_checking")
-	cfgs := localConfigs(r)
-	states, trans := 0, 0
+	states, trans, validated := 0, 0, 0
 	var per []interface{}
-	for _, c := range cfgs {
-		res := runLocal(r, c)
-		states += res.States
-		trans += res.Transitions
-		per = append(per, map[string]interface{}{"search": "local/" + c.name, "states": res.States, "transitions": res.Transitions,
-			"depth_completed": res.DepthCompleted, "per_depth": res.PerDepth, "merge_checks": res.MergeChecks})
+	if *part == "all" || *part == "model" {
+		info := runModel(r)
+		r.Set("model", info)
+		states += info["model_states_total"].(int)
+		trans += info["model_transitions_total"].(int)
+	}
+	if *part == "all" || *part == "local" {
+		restore := r.Limit(r.Remaining() * 55 / 100)
+		for _, c := range localConfigs(r) {
+			res := runLocal(r, c)
+			states += res.States
+			trans += res.Transitions
+			validated += res.Transitions
+			per = append(per, map[string]interface{}{"search": "local/" + c.name, "states": res.States, "transitions": res.Transitions,
+				"depth_completed": res.DepthCompleted, "per_depth": res.PerDepth, "merge_checks": res.MergeChecks, "prefix": c.prefix})
+		}
+		restore()
+	}
+	if *part == "all" || *part == "net" {
+		ni := runNet(r)
+		r.Set("net", ni)
+		trans += ni["inputs_handled"].(int)
+		validated += ni["executions"].(int)
+		states += ni["distinct_final_states"].(int)
 	}
 	r.Set("searches", per)
 	r.Set("states", states)
 	r.Set("transitions", trans)
-	r.Set("traces_validated_against_impl", trans)
+	r.Set("traces_validated_against_impl", validated)
 	r.Set("evaluations", trans)
 	r.Set("distinct_nontrivial", states)
-	r.Set("rule", "BFS over environment inputs to one real ConsensusState; state = canonical digest of RoundState + delivered-vote tally")
+	r.Set("rule", "model states (TLC) + implementation states (BFS over environment inputs to a real ConsensusState, canonical digest of RoundState + delivered soup) + distinct final states of network executions")
+	r.Assume("TLC (pre-installed) is trusted for the model; the model is bound to the code through the shared guard functions (cross-validated state by state) evaluated on every vote/commit of the real node")
+	r.Assume("recover mode (15-minute stall timer, recover proposals) is never triggered; equal voting powers in the symmetry-reduced searches")
+	r.Assume("own messages are handled immediately after the input that produced them except in the 'nodrain' searches")
 	r.Finish()
 }
